@@ -271,9 +271,11 @@ class Runner:
         din = R.dec_hstrp(data, tolerant_options=True)
         if addr != src:
             raise Fail("ack_goes_to_the_sender", list(addr) if addr else None, list(src))
-        if d["type"] & (R.REJECT | R.HEARTBEAT) or d["sn"] != din["sn"]:
-            raise Fail("ack_same_sequence_number", {"ack": raw.hex(), "type": d["type"], "sn": d["sn"]}, {"type": "ack, not reject/heartbeat", "sn": din["sn"]})
+        if d["sn"] != din["sn"]:
+            raise Fail("ack_same_sequence_number", {"ack": raw.hex(), "sn": d["sn"]}, {"sn": din["sn"]})
         if strict_form:
+            if d["type"] & (R.REJECT | R.HEARTBEAT):
+                raise Fail("ack_is_an_acknowledgement", {"ack": raw.hex(), "type": d["type"]}, "ack bit set, reject and heartbeat bits clear")
             if d["payload"] or d["options_malformed"]:
                 raise Fail("ack_carries_no_payload", raw.hex(), R.enc_hstrp(din["type"] | R.ACK, din["sn"], din["options"]).hex())
             if raw == R.enc_hstrp(din["type"] | R.ACK, din["sn"], din["options"], version=din["version"]):
@@ -551,6 +553,7 @@ def drv_exhaustive(ctx: Ctx, sub: SubCheck):
         r = Runner()
         ops = []
         seq = []
+        confirmed = {}
 
         def visit(ci):
             """apply class ci at the current position; returns False when the history failed (subtree is not explored)."""
@@ -566,9 +569,17 @@ def drv_exhaustive(ctx: Ctx, sub: SubCheck):
                 if not lib_raised(e):
                     raise
                 failed = Fail("no_unexpected_exception", f"{type(e).__name__}: {e}", "no exception", exc_klass(e))
-            # judge by a fresh replay of the whole sequence, so that a reported failure never depends on the DFS bookkeeping
+            # judge by a fresh replay of the whole sequence, so that a reported failure never depends on the DFS bookkeeping;
+            # after 8 confirmed failures of one bucket in this worker further ones are only counted (keeps failing trees fast)
+            bucket = f"{sub.name}|{failed.clause}|{failed.klass}"
+            if confirmed.get(bucket, 0) >= 8:
+                t.fail_counts[bucket] += 1
+                return False
             case = {"ops": list(ops)}
+            before = t.fail_counts.get(bucket, 0)
             held = ctx.run_case(sub.name, oracle_history, case, t)
+            if t.fail_counts.get(bucket, 0) > before:
+                confirmed[bucket] = confirmed.get(bucket, 0) + 1
             if held and not t.known:
                 t.errors.append(f"{sub.name}: DFS saw {failed} for class sequence {seq} but the fresh replay holds")
             return False
@@ -717,7 +728,7 @@ def drv_random(ctx: Ctx, sub: SubCheck):
     M = make_machine("HSTRPHandlerMachine", Runner, _strategies(), initial_ops=_initial_ops())
 
     def work(shard, t: Tally):
-        ctx.state_machine(sub.name, M, max_examples=ctx.pick(30, 300), step_count=ctx.pick(60, 200), tally=t, shard=shard)
+        ctx.state_machine(sub.name, M, max_examples=ctx.pick(40, 150), step_count=ctx.pick(60, 200), tally=t, shard=shard)
 
     ctx.shards(work, list(range(16)))
 
